@@ -361,6 +361,34 @@ def r4c_initialiser_sees_the_old_scope(ctx):
         ctx.ok("declare|initialiser-first", cs.where(init[0].block), "check_expr(initialiser) dominates %d declaration actions" % len(decl))
 
 
+def r4d_declarations_stay_in_their_block(ctx):
+    """`make x` creates (or rebinds) x in the block being executed and nowhere else: define_bound_local / define_var look for
+    an existing slot only in the innermost scope (env.last_mut()), never along the scope stack - an activation further out may
+    hold a slot with the same id (recursion) or name, and overwriting it would let a callee's declaration change its caller's
+    variable."""
+    for name in ("define_bound_local", "define_var"):
+        f = ctx.need(RT + name)
+        fam = ctx.lib.family(f.id)
+        for g in fam:
+            ctx.touch(g)
+        walks = []
+        for g in fam:
+            for c in g.calls():
+                last = (c.callee or "").split("::")[-1]
+                if last in ("iter", "iter_mut", "into_iter", "rev") and c.args:
+                    t = sh(ne(g.deep(c.args[0])))
+                    if re.search(r"(^|[(&*])self\.env\)?$", t) or t in ("self.env", "&self.env", "&mut self.env", "*self.env"):
+                        walks.append((g, c, t))
+        lasts = [c for g in fam for c in g.calls() if (c.callee or "").split("::")[-1] in ("last_mut", "last") and "self.env" in sh(ne(g.deep(c.args[0])))]
+        if walks:
+            g, c, t = walks[0]
+            ctx.bad("declare|%s|walks-scope-stack" % name, g.where(c.block), "%s iterates over the whole scope stack when it looks for the slot to rebind: with two live activations of one function (recursion) the inner `make x` overwrites the outer activation's x and creates no variable of its own" % name)
+        elif lasts:
+            ctx.ok("declare|%s|innermost-only" % name, f.where(lasts[0].block), "looks only at env.last_mut()")
+        else:
+            ctx.bad("declare|%s|shape" % name, f.where(), "cannot see which scope %s declares into" % name)
+
+
 def r5_recorded_is_consumed(ctx):
     """Every binding kind the resolver records is the one the runtime asks for on the same node kind."""
     pairs = [
@@ -499,8 +527,15 @@ def r5c_query_on_the_variable_node(ctx):
     ctx.floor("bound_expr_local queries", n, 6)
 
 
-RULES = [("C04-R1", r1_id_directed_lookup), ("C04-R2", r2_innermost_first), ("C04-R3", r3_sorted_tables), ("C04-R4", r4_scope_discipline), ("C04-R4b", r4b_arguments_belong_to_the_caller), ("C04-R4c", r4c_initialiser_sees_the_old_scope),
-         ("C04-R5", r5_recorded_is_consumed), ("C04-R5b", r5b_record_unconditional), ("C04-R5c", r5c_query_on_the_variable_node)]
+def r6_hoisting_asks_the_right_table(ctx):
+    """A block's functions are hoisted unless the plan says the definition is removable; that answer comes from the table of
+    function definitions, not from the table of statements (shared with C03-R3b)."""
+    from .c03 import r3b_plan_queries_read_their_own_table
+    r3b_plan_queries_read_their_own_table(ctx)
+
+
+RULES = [("C04-R1", r1_id_directed_lookup), ("C04-R2", r2_innermost_first), ("C04-R3", r3_sorted_tables), ("C04-R4", r4_scope_discipline), ("C04-R4b", r4b_arguments_belong_to_the_caller), ("C04-R4c", r4c_initialiser_sees_the_old_scope), ("C04-R4d", r4d_declarations_stay_in_their_block),
+         ("C04-R5", r5_recorded_is_consumed), ("C04-R5b", r5b_record_unconditional), ("C04-R5c", r5c_query_on_the_variable_node), ("C04-R6", r6_hoisting_asks_the_right_table)]
 
 EXPLANATION = (
     "R1: at run time every name-keyed accessor is reachable only on the None outcome of the matching binding query and every "
@@ -519,6 +554,9 @@ EXPLANATION += (
 )
 EXPLANATION += (
     " R4b: all arguments are evaluated before the callee's parameter scope is pushed and the scope is popped on every path after the body. R4c: check_expr(initialiser) dominates every declaration action of the Assign arm."
+)
+EXPLANATION += (
+    " R4d: a declaration creates or rebinds its variable only in the innermost scope (`env.last_mut()`), never by a walk along the scope stack. R6 (= C03-R3b): hoisting asks the plan's function-definition table, not its statement table."
 )
 ASSUMPTIONS = ["the AST node address identifies the node (arena-allocated, never moved)"]
 TRUSTED = ["rustc nightly MIR", "nsx exporter", "nsverif edge-dominance"]
